@@ -31,6 +31,14 @@
 //    enum defeats constant propagation and every later Vec::push explores the
 //    reallocation path with a symbolic-size array copy -> out of memory).
 //    The wrappers are covered separately on a small catalog.
+//  * the remove-step harnesses bound the element loop of the drop glue of
+//    `[(LabelBuf, Node)]` to zero iterations (`--unwindset <that loop>:1`):
+//    remove_in_class only ever drops nodes without children, and the
+//    unwinding assertion of that loop proves it on every path; without the
+//    bound CBMC unrolls the recursive drop glue of the tree 7^depth times
+//    when pruning is decided by symbolic entries.  (If the mangled loop name
+//    changes with the toolchain the option is ignored and those harnesses
+//    time out - inconclusive, never unsound.)
 //  * node CREATION (get_or_create_descendant on a missing label) goes through
 //    `entry().or_insert_with()` and is out of reach for that reason: see
 //    the report.  Insert is covered where the node already exists.
@@ -285,7 +293,7 @@ fn attach(parent: &mut TNode, label: &[u8; 1], child: TNode) {
 }
 
 const SHAPE_T5: [bool; 5] = [true, true, true, true, true];
-const SHAPE_CHAIN4: [bool; 5] = [true, true, true, false, true];
+const SHAPE_CHAIN3: [bool; 5] = [true, true, true, false, false];
 const SHAPE_ROOT: [bool; 5] = [true, false, false, false, false];
 const SHAPE_ROOT_A: [bool; 5] = [true, true, false, false, false];
 
@@ -303,11 +311,9 @@ fn build_t5(r: &RefCat, class: Class) -> TNode {
     root
 }
 
-/// . -> a -> b -> c   (every node has at most one child: pruning can cascade)
-fn build_chain4(r: &RefCat, class: Class) -> TNode {
-    let cba = mk(N_CBA, r.entry(I_CBA, class));
-    let mut ba = mk(N_BA, r.entry(I_BA, class));
-    attach(&mut ba, b"c", cba);
+/// . -> a -> b   (every node has at most one child: pruning can cascade)
+fn build_chain3(r: &RefCat, class: Class) -> TNode {
+    let ba = mk(N_BA, r.entry(I_BA, class));
     let mut a = mk(N_A, r.entry(I_A, class));
     attach(&mut a, b"b", ba);
     let mut root = mk(N_ROOT, r.entry(I_ROOT, class));
@@ -383,7 +389,7 @@ fn lookup_get_queries(from: usize, to: usize) {
     core::mem::forget(cat);
 }
 
-// @harness props=C22,C07 tier=quick mem=4 t=1500 fn="<HashMapTreeCatalog as Catalog>::lookup,Catalog::get (provided),lookup_in_class"
+// @harness props=C22,C07 tier=thorough mem=4 t=1500 fn="<HashMapTreeCatalog as Catalog>::lookup,Catalog::get (provided),lookup_in_class"
 //   bound="catalog of 2 classes: IN tree . -> a -> {b -> c, x} with every node's entry symbolic (absent/NotYetLoaded/FailedToLoad, u8 tag), CH tree = root node with symbolic entry; lookup and get in class IN of ., a., b.a.; unwind 7"
 //   sym="entries of 6 nodes" stubs="eq_ignore_ascii_case" cbmc="--max-field-sensitivity-array-size 1024"
 #[kani::proof]
@@ -423,7 +429,7 @@ fn c22_lookup_get_names_7_8() {
     lookup_get_queries(7, 9);
 }
 
-// @harness props=C22,C07 tier=quick mem=4 t=1500 fn="<HashMapTreeCatalog as Catalog>::lookup,Catalog::get (provided)"
+// @harness props=C22,C07 tier=thorough mem=4 t=1500 fn="<HashMapTreeCatalog as Catalog>::lookup,Catalog::get (provided)"
 //   bound="same catalog; class separation: lookup and get of ., a., c.b.a. in class CH (root entry only) and HS (no tree); unwind 7"
 //   sym="entries of 6 nodes" stubs="eq_ignore_ascii_case" cbmc="--max-field-sensitivity-array-size 1024"
 #[kani::proof]
@@ -511,7 +517,7 @@ fn c22_iter_two_classes() {
 
 fn remove_step(shape: [bool; 5], target: &[u8], target_idx: Option<usize>) -> RefCat {
     let before = in_shape(RefCat::any(), shape);
-    let mut root = if shape[I_XA] { build_t5(&before, Class::IN) } else { build_chain4(&before, Class::IN) };
+    let mut root = if shape[I_XA] { build_t5(&before, Class::IN) } else { build_chain3(&before, Class::IN) };
     let q = nm(target);
     // HashMapTreeCatalog::remove calls exactly this on the class root
     let (removed, _root_is_prunable) = remove_in_class(&mut root, &q, q.len() - 1);
@@ -532,7 +538,7 @@ fn remove_step(shape: [bool; 5], target: &[u8], target_idx: Option<usize>) -> Re
 
 // @harness props=C22 tier=quick mem=5 t=2400 fn="remove_in_class,lookup_in_class"
 //   bound="tree . -> a -> {b -> c, x}, every entry symbolic; remove c.b.a. (a leaf whose parent b.a. may hold an entry and has no other child: defect D11); then lookup + exact lookup of the 5 pool names vs the reference; unwind 7"
-//   sym="entries of 5 nodes" stubs="eq_ignore_ascii_case" cbmc="--max-field-sensitivity-array-size 1024"
+//   sym="entries of 5 nodes" stubs="eq_ignore_ascii_case" cbmc="--max-field-sensitivity-array-size 1024 --unwindset _RINvNtCs8xvirJzNMvV_4core3ptr9drop_glueSTNtNtNtCskjFBwtpsoHr_8quandary4name5label8LabelBufINtNtNtNtBJ_2db13hash_map_tree4node4NodeINtNtB4_6option6OptionINtNtB1x_7catalog5EntryNtNtNtB1v_7catalog17kani_catalog_tree6NoZonehEEEEEBJ_.0:1"
 #[kani::proof]
 #[kani::unwind(7)]
 #[kani::stub(<[u8]>::eq_ignore_ascii_case, eq_ic_model)]
@@ -545,7 +551,7 @@ fn c22_step_remove_t5_cba() {
 
 // @harness props=C22 tier=thorough mem=5 t=2400 fn="remove_in_class,lookup_in_class"
 //   bound="same tree; remove x.a. (a leaf whose parent a. has another child); the 5 pool names; unwind 7"
-//   sym="entries of 5 nodes" stubs="eq_ignore_ascii_case" cbmc="--max-field-sensitivity-array-size 1024"
+//   sym="entries of 5 nodes" stubs="eq_ignore_ascii_case" cbmc="--max-field-sensitivity-array-size 1024 --unwindset _RINvNtCs8xvirJzNMvV_4core3ptr9drop_glueSTNtNtNtCskjFBwtpsoHr_8quandary4name5label8LabelBufINtNtNtNtBJ_2db13hash_map_tree4node4NodeINtNtB4_6option6OptionINtNtB1x_7catalog5EntryNtNtNtB1v_7catalog17kani_catalog_tree6NoZonehEEEEEBJ_.0:1"
 #[kani::proof]
 #[kani::unwind(7)]
 #[kani::stub(<[u8]>::eq_ignore_ascii_case, eq_ic_model)]
@@ -556,7 +562,7 @@ fn c22_step_remove_t5_xa() {
 
 // @harness props=C22 tier=thorough mem=5 t=2400 fn="remove_in_class,lookup_in_class"
 //   bound="same tree; remove b.a. (an inner node with a child); the 5 pool names; unwind 7"
-//   sym="entries of 5 nodes" stubs="eq_ignore_ascii_case" cbmc="--max-field-sensitivity-array-size 1024"
+//   sym="entries of 5 nodes" stubs="eq_ignore_ascii_case" cbmc="--max-field-sensitivity-array-size 1024 --unwindset _RINvNtCs8xvirJzNMvV_4core3ptr9drop_glueSTNtNtNtCskjFBwtpsoHr_8quandary4name5label8LabelBufINtNtNtNtBJ_2db13hash_map_tree4node4NodeINtNtB4_6option6OptionINtNtB1x_7catalog5EntryNtNtNtB1v_7catalog17kani_catalog_tree6NoZonehEEEEEBJ_.0:1"
 #[kani::proof]
 #[kani::unwind(7)]
 #[kani::stub(<[u8]>::eq_ignore_ascii_case, eq_ic_model)]
@@ -567,7 +573,7 @@ fn c22_step_remove_t5_ba() {
 
 // @harness props=C22 tier=thorough mem=5 t=2400 fn="remove_in_class,lookup_in_class"
 //   bound="same tree; remove a. (inner node with two children); the 5 pool names; unwind 7"
-//   sym="entries of 5 nodes" stubs="eq_ignore_ascii_case" cbmc="--max-field-sensitivity-array-size 1024"
+//   sym="entries of 5 nodes" stubs="eq_ignore_ascii_case" cbmc="--max-field-sensitivity-array-size 1024 --unwindset _RINvNtCs8xvirJzNMvV_4core3ptr9drop_glueSTNtNtNtCskjFBwtpsoHr_8quandary4name5label8LabelBufINtNtNtNtBJ_2db13hash_map_tree4node4NodeINtNtB4_6option6OptionINtNtB1x_7catalog5EntryNtNtNtB1v_7catalog17kani_catalog_tree6NoZonehEEEEEBJ_.0:1"
 #[kani::proof]
 #[kani::unwind(7)]
 #[kani::stub(<[u8]>::eq_ignore_ascii_case, eq_ic_model)]
@@ -578,7 +584,7 @@ fn c22_step_remove_t5_a() {
 
 // @harness props=C22 tier=thorough mem=5 t=2400 fn="remove_in_class,lookup_in_class"
 //   bound="same tree; remove the root name; the 5 pool names; unwind 7"
-//   sym="entries of 5 nodes" stubs="eq_ignore_ascii_case" cbmc="--max-field-sensitivity-array-size 1024"
+//   sym="entries of 5 nodes" stubs="eq_ignore_ascii_case" cbmc="--max-field-sensitivity-array-size 1024 --unwindset _RINvNtCs8xvirJzNMvV_4core3ptr9drop_glueSTNtNtNtCskjFBwtpsoHr_8quandary4name5label8LabelBufINtNtNtNtBJ_2db13hash_map_tree4node4NodeINtNtB4_6option6OptionINtNtB1x_7catalog5EntryNtNtNtB1v_7catalog17kani_catalog_tree6NoZonehEEEEEBJ_.0:1"
 #[kani::proof]
 #[kani::unwind(7)]
 #[kani::stub(<[u8]>::eq_ignore_ascii_case, eq_ic_model)]
@@ -589,7 +595,7 @@ fn c22_step_remove_t5_root() {
 
 // @harness props=C22 tier=thorough mem=5 t=2400 fn="remove_in_class,lookup_in_class"
 //   bound="same tree; remove y.a. (no such node); the 5 pool names; unwind 7"
-//   sym="entries of 5 nodes" stubs="eq_ignore_ascii_case" cbmc="--max-field-sensitivity-array-size 1024"
+//   sym="entries of 5 nodes" stubs="eq_ignore_ascii_case" cbmc="--max-field-sensitivity-array-size 1024 --unwindset _RINvNtCs8xvirJzNMvV_4core3ptr9drop_glueSTNtNtNtCskjFBwtpsoHr_8quandary4name5label8LabelBufINtNtNtNtBJ_2db13hash_map_tree4node4NodeINtNtB4_6option6OptionINtNtB1x_7catalog5EntryNtNtNtB1v_7catalog17kani_catalog_tree6NoZonehEEEEEBJ_.0:1"
 #[kani::proof]
 #[kani::unwind(7)]
 #[kani::stub(<[u8]>::eq_ignore_ascii_case, eq_ic_model)]
@@ -598,17 +604,17 @@ fn c22_step_remove_t5_absent() {
     kani::cover!(before.present[I_A] && before.present[I_XA], "entries around the missing name");
 }
 
-// @harness props=C22 tier=quick mem=5 t=2400 fn="remove_in_class,lookup_in_class"
-//   bound="chain . -> a -> b -> c, every entry symbolic; remove c.b.a.: pruning may cascade through b.a., a. up to the root, each of which may hold an entry (defect D11 at every level); the 5 pool names; unwind 7"
-//   sym="entries of 4 nodes" stubs="eq_ignore_ascii_case" cbmc="--max-field-sensitivity-array-size 1024"
+// @harness props=C22 tier=thorough mem=7 t=3000 fn="remove_in_class,lookup_in_class"
+//   bound="chain . -> a -> b, every entry symbolic; remove b.a.: pruning may cascade through a. up to the root, each of which may hold an entry (defect D11 at two levels); the 5 pool names; unwind 7"
+//   sym="entries of 3 nodes" stubs="eq_ignore_ascii_case" cbmc="--max-field-sensitivity-array-size 1024 --unwindset _RINvNtCs8xvirJzNMvV_4core3ptr9drop_glueSTNtNtNtCskjFBwtpsoHr_8quandary4name5label8LabelBufINtNtNtNtBJ_2db13hash_map_tree4node4NodeINtNtB4_6option6OptionINtNtB1x_7catalog5EntryNtNtNtB1v_7catalog17kani_catalog_tree6NoZonehEEEEEBJ_.0:1"
 #[kani::proof]
 #[kani::unwind(7)]
 #[kani::stub(<[u8]>::eq_ignore_ascii_case, eq_ic_model)]
-fn c22_step_remove_chain_cba() {
-    let before = remove_step(SHAPE_CHAIN4, N_CBA, Some(I_CBA));
-    kani::cover!(before.present[I_CBA] && !before.present[I_BA] && before.present[I_A], "pruning stops at a. because it holds an entry");
-    kani::cover!(before.present[I_CBA] && !before.present[I_BA] && !before.present[I_A] && before.present[I_ROOT], "pruning stops at the root because it holds an entry");
-    kani::cover!(before.present[I_CBA] && !before.present[I_BA] && !before.present[I_A] && !before.present[I_ROOT], "the whole chain is pruned");
+fn c22_step_remove_chain_ba() {
+    let before = remove_step(SHAPE_CHAIN3, N_BA, Some(I_BA));
+    kani::cover!(before.present[I_BA] && before.present[I_A], "pruning stops at a. because it holds an entry");
+    kani::cover!(before.present[I_BA] && !before.present[I_A] && before.present[I_ROOT], "pruning stops at the root because it holds an entry");
+    kani::cover!(before.present[I_BA] && !before.present[I_A] && !before.present[I_ROOT], "the whole chain is pruned");
 }
 
 // ---------------------------------------------------------------------------
